@@ -26,6 +26,8 @@ import Ogen.DocLines_proof
 import Ogen.DurationText_proof
 import Ogen.BoundMerge_proof
 import Ogen.Listing_proof
+import Ogen.Lines_proof
+import Ogen.RespOrder_proof
 
 /-! Line-protocol driver over all executable models: `<model> <payload>` per line, one
     canonical output line per input line. Core-only (no Mathlib) so it links natively. -/
@@ -84,6 +86,8 @@ def dispatch (line : String) : String :=
     | "durval" => DurT.valLine payload
     | "docsplit" => DocLines.splitLineLine payload
     | "lpad" => Listing.padLine payload
+    | "lline" => LinesM.lineLine payload
+    | "rsort" => RespOrder.sortLine payload
     | "uuidfmt" => UuidT.fmtLine payload
     | "uuidparse" => UuidT.parseLine payload
     | "authz" => AuthHDrv.authzLine payload
